@@ -29,7 +29,7 @@ ASSUMPTIONS = ['comparison is with the frame as it was when saved (a derived fra
                'blimpy container conventions (f_start/f_stop as band edges) are not judged: get_waterfall() is judged by its header and data only']
 STARTS = ['synthetic', 'from_data', 'shape', 'loaded_fil', 'loaded_h5', 'loaded_fsel']
 OPS = ['add_noise', 'add_signal', 'get_waterfall', 'copy', 'save_fil', 'save_h5', 'reload_fil', 'reload_h5', 'get_slice', 'dedrift', 'pickle',
-       'other_frame']
+       'other_frame', 'retime']
 
 
 def required(tier):
@@ -236,6 +236,18 @@ def _run(stg, c, d, R):
             elif op == 'copy':
                 ancestors.append(fr)
                 fr = fr.copy()
+            elif op == 'retime':
+                # the start time is re-assigned after the frame has possibly been saved / turned into a Waterfall already:
+                # directly, or by the library itself (Cadence(t_overwrite=True) re-spaces its members)
+                if o['a'] < 0.5:
+                    fr.t_start = float(fr.t_start) + 86400.0 * (0.5 + o['b'])
+                else:
+                    lead = stg.Frame(fchans=fr.fchans, tchans=2, df=fr.df, dt=fr.dt, fch1=fr.fch1, ascending=fr.ascending, seed=2,
+                                     t_start=float(fr.t_start) + 1234.5 + 1000 * o['b'])
+                    if lead.fmin == fr.fmin:
+                        stg.Cadence([lead, fr], t_slew=17.0 + 100 * o['b'], t_overwrite=True)
+                    else:
+                        fr.t_start = float(fr.t_start) + 4321.0
             elif op == 'other_frame':
                 # an unrelated frame of another geometry is built and saved / turned into a Waterfall in between
                 other = stg.Frame(fchans=int(5 + o['a'] * 40), tchans=int(3 + o['b'] * 9), df=7.0, dt=3.0, fch1=2.5e9,
